@@ -298,10 +298,10 @@ theorem history_any_fault_core (cfg : Cfg) (w : World) (hr : Hist.Reach cfg w) (
 every fault state: invariant kept, no memory fault. -/
 theorem history_lying_splice_core (cfg : Cfg) (w : World) (hr : Hist.Reach cfg w) (v : Nat) (lo hi : Bnd) (typed : Bool)
     (repl : List Src) (claim : Int) (eats : List (End × Sink)) (fin : Fin) (f : Option Nat)
-    (hv : Hist.liveVec w.vecs v) (hrepl : ∀ r ∈ repl, r.Plain) (hc : ∀ p ∈ eats, p.2.Core) :
+    (hv : Hist.liveVec w.vecs v) (hrepl : ∀ r ∈ repl, r.Plain) (hc : ∀ p ∈ eats, p.2.ValidItem w.vecs v typed) :
     (runStep cfg (.splice v lo hi typed repl claim eats fin) f w).1.Inv ∧
       (runStep cfg (.splice v lo hi typed repl claim eats fin) f w).2.notUb :=
-  Hist.runStep_inv cfg (.splice v lo hi typed repl claim eats fin) f w (Hist.reach_inv_core cfg w hr) ⟨hrepl, hc⟩ hv
+  Hist.runStep_inv cfg (.splice v lo hi typed repl claim eats fin) f w (Hist.reach_inv_core cfg w hr) hrepl ⟨hv, hc⟩
 
 end C06
 end AnyVec
